@@ -185,4 +185,16 @@ theorem run_good {c : Ctx} (hg : Good c) (ops : List NavOp) : ∃ c', c.run ops 
     · rw [h]; exact ih hg
     · rw [h]; exact ih hg'
 
+def tokOk : Tok → Bool
+  | .op o => decide (o ∈ knownOps)
+  | .other _ => true
+
+/-- `Typed` from a decidable check of the (finite) array -/
+theorem typed_of_check (a : Array Tok) (h : a.toList.all tokOk = true) : Typed a := by
+  intro k t hk o ho
+  subst ho
+  have hm : Tok.op o ∈ a.toList := Array.mem_toList_iff.mpr (Array.mem_of_getElem? hk)
+  have := List.all_eq_true.mp h _ hm
+  simpa [tokOk] using this
+
 end Occa.FrontEnd
